@@ -4,6 +4,8 @@ import (
 	"bytes"
 	"fmt"
 	"math/big"
+	"os"
+	"path/filepath"
 
 	otr3 "github.com/coyim/otr3"
 )
@@ -568,4 +570,81 @@ func c17Keys(c *Ctx) {
 	}
 }
 
-func c17KeyFile(c *Ctx, n int) { sexpInputs(c, n/4) }
+func c17KeyFile(c *Ctx, n int) {
+	sexpInputs(c, n/4)
+	c17KeyFileRoundTrip(c, 6+n/40)
+}
+
+// libotr key files: exporting any list of accounts (names made of the characters libotr permits, any protocol symbol)
+// and importing the file again yields the same accounts and keys, and exporting what was imported yields the same bytes
+func c17KeyFileRoundTrip(c *Ctx, n int) {
+	nameChars := "abcdefghijklmnopqrstuvwxyzABCDEFGHIJKLMNOPQRSTUVWXYZ0123456789@._-+/ "
+	protos := []string{"prpl-jabber", "libpurple-Jabber", "xmpp", "irc", "prpl-icq"}
+	dir := os.Getenv("VERIF_SCRATCH")
+	if dir == "" {
+		dir = os.TempDir()
+	}
+	for i := 0; i < n; i++ {
+		var acs []*otr3.Account
+		k := 1 + c.R.Intn(3)
+		if i == 0 {
+			k = 0
+		}
+		for j := 0; j < k; j++ {
+			ln := 1 + c.R.Intn(24)
+			if i == 1 {
+				ln = 1
+			}
+			nm := make([]byte, ln)
+			for x := range nm {
+				nm[x] = nameChars[c.R.Intn(len(nameChars))]
+			}
+			acs = append(acs, &otr3.Account{Name: string(nm), Protocol: protos[c.R.Intn(len(protos))], Key: partyKeys[1+c.R.Intn(4)]})
+		}
+		f1 := filepath.Join(dir, fmt.Sprintf("verif-keys-%d-%d.txt", os.Getpid(), i))
+		f2 := f1 + ".again"
+		func() {
+			defer os.Remove(f1)
+			defer os.Remove(f2)
+			if err := otr3.ExportKeysToFile(acs, f1); err != nil {
+				c.Violate("roundtrip-mismatch", "key-file", "ExportKeysToFile failed: "+err.Error(), nil)
+				return
+			}
+			got, err := otr3.ImportKeysFromFile(f1)
+			desc := func() map[string]string {
+				b, _ := os.ReadFile(f1)
+				names := ""
+				for _, a := range acs {
+					names += fmt.Sprintf("%q/%s ", a.Name, a.Protocol)
+				}
+				return map[string]string{"accounts": names, "file_head": string(trunc200(b))}
+			}
+			if err != nil {
+				c.Violate("roundtrip-mismatch", "key-file", "the exported file does not import: "+err.Error(), desc())
+				return
+			}
+			if len(got) != len(acs) {
+				c.Violate("roundtrip-mismatch", "key-file", fmt.Sprintf("%d accounts exported, %d imported", len(acs), len(got)), desc())
+				return
+			}
+			for j := range acs {
+				w, g := acs[j], got[j]
+				wk, gk := w.Key.(*otr3.DSAPrivateKey), g.Key.(*otr3.DSAPrivateKey)
+				if g.Name != w.Name || g.Protocol != w.Protocol || !bytes.Equal(wk.Serialize(), gk.Serialize()) ||
+					!bytes.Equal(wk.PublicKey().Fingerprint(), gk.PublicKey().Fingerprint()) {
+					c.Violate("roundtrip-mismatch", "key-file", fmt.Sprintf("account %d: exported %q/%s, imported %q/%s (keys equal: %v)", j, w.Name, w.Protocol, g.Name, g.Protocol, bytes.Equal(wk.Serialize(), gk.Serialize())), desc())
+					return
+				}
+			}
+			if err := otr3.ExportKeysToFile(got, f2); err == nil {
+				b1, _ := os.ReadFile(f1)
+				b2, _ := os.ReadFile(f2)
+				if !bytes.Equal(b1, b2) {
+					c.Violate("roundtrip-mismatch", "key-file", "exporting what was imported gives other bytes", desc())
+				}
+			}
+		}()
+		c.Rep.Evaluations++
+		c.Count("key-file-roundtrip")
+	}
+}
